@@ -72,6 +72,32 @@ Proof. exact next_covers. Qed.
 Theorem C07_result_deposited_once : forall atomic k s, reachable atomic k s -> forall a, n_dep a s <= 1.
 Proof. exact deposits_once. Qed.
 
+(* ---- wake-once, for the worker whose await registration is ONE atom (atomic = true) ------
+   On every worker that has not entered the cancellation scope (w_oos = false):
+   (1) no task address is in the ready queue twice (at most one pending wake-up),
+   (2) every queued task is steppable: if its desired mailbox exists, it is ready (await)
+       or has a non-None fresh list (next) -- so `assert box.ready` and
+       `assert self.fresh_results is not None` cannot fail when it is stepped,
+   (3) neither assertion has ever failed.
+   C07_wake_once_refuted shows that (1)-(3) are false for the code as it is (D7). *)
+Theorem C07_wake_once : forall k s, reachable true k s ->
+  forall w, In w (s_workers s) -> w_oos w = false ->
+    NoDup (w_ready w) /\
+    (forall a, In a (w_ready w) -> steppable w a) /\
+    (forall e, In e (w_errs w) -> e <> EAssertReady /\ e <> EAssertFresh).
+Proof. exact wake_once_atomic. Qed.
+
+(* ---- not proved: absence of deadlock --------------------------------------------------
+   Full statement kept visible.  It is evaluated by the harness oracle on every co-simulated
+   run of the real runtime (symptom `deadlock` / `no-result`), not proved in Coq. *)
+Definition quiescent (s : sys) : Prop :=
+  (forall q, In q (s_down s) -> q = []) /\
+  (forall w, In w (s_workers s) -> w_out w = [] /\ w_delayed w = [] /\ w_ready w = [] /\ w_pc w = PBlocked).
+Definition C07_no_deadlock_full : Prop :=
+  forall k s, reachable true k s -> in_scope s = true -> all_errs s = [] -> s_fatal s = false -> quiescent s ->
+    (forall w, In w (s_workers s) -> w_tasks w = []) /\
+    (forall b v, In (b, v) (s_roots s) -> In (mkAddr DClient b 0, v) (s_client s)).
+
 (* ---- non-vacuity: a run in which a map of two and a submit are awaited, on 2 workers ---- *)
 Definition ex_root : script := [Map [[Return 5]; [Return 6]]; Submit [Return 7]; Await 0; Await 1; Return 1].
 (* the event list of a run of the REAL runtime (harness/rtsim.py, seed 1), replayed by the model *)
@@ -97,4 +123,28 @@ Proof.
   - vm_compute. auto.
   - vm_compute. auto 10.
   - exists (FMap [[Return 5]; [Return 6]]). split; reflexivity.
+Qed.
+
+(* the same body under the atomic variant: event list of a coarse run of the real runtime *)
+Definition ex_run_atomic : list event :=
+  [EClient ex_root 1; EMain 0; EMain 1; EMain 0; ERecv 1; EServer 0 []; EMain 1; EServer 1 [(0,[0]); (1,[1])];
+   EServer 1 [(0,[0])]; EMain 1; ERecv 1; ERecv 0; ERecv 0; EMain 1; EMain 0; EServer 1 []; EServer 0 []; EMain 1;
+   EMain 0; EMain 1; ERecv 1; EMain 1; EServer 1 []; EMain 0; EMain 1; EMain 0; EServer 0 []; EMain 0; EServer 0 [];
+   ERecv 1; EMain 1; EServer 1 []; EMain 1; EMain 1; EServer 1 []].
+
+Example C07_wake_once_nonvacuous :
+  (exists s, steps true (sys0 2) ex_run_atomic = Some s /\ in_scope s = true /\ quiescent s /\
+     s_client s = [(ex_root_addr, 1)] /\ all_errs s = [] /\ (forall w, In w (s_workers s) -> w_tasks w = [])) /\
+  (exists s w, steps true (sys0 2) (firstn 13 ex_run_atomic) = Some s /\ In w (s_workers s) /\ w_oos w = false /\
+     length (w_ready w) = 2).
+Proof.
+  split.
+  - destruct (steps true (sys0 2) ex_run_atomic) as [s|] eqn:E; [|vm_compute in E; discriminate].
+    exists s. split; [reflexivity|]. vm_compute in E. injection E as <-.
+    split; [reflexivity|]. split.
+    + split; simpl; intros x [<-|[<-|[]]]; repeat split; reflexivity.
+    + split; [reflexivity|]. split; [reflexivity|]. simpl. intros x [<-|[<-|[]]]; reflexivity.
+  - destruct (steps true (sys0 2) (firstn 13 ex_run_atomic)) as [s|] eqn:E; [|vm_compute in E; discriminate].
+    vm_compute in E. injection E as <-.
+    eexists. eexists. split; [reflexivity|]. split; [left; reflexivity|]. split; reflexivity.
 Qed.
